@@ -65,7 +65,7 @@ class ABADecomposer(Decomposer, ABC):
             if abs(a_axis_value) < ATOL:
                 theta2 = math.pi
                 p = 0.0
-                m = 2 * math.acos(b_axis_value)
+                m = math.copysign(2 * math.acos(b_axis_value), c_axis_value)
             else:
                 p = math.pi
                 theta2 = 2 * math.acos(a_axis_value)
@@ -75,6 +75,7 @@ class ABADecomposer(Decomposer, ABC):
                     m = 2 * math.acos(
                         round(b_axis_value / math.sqrt(1 - a_axis_value**2), abs(math.floor(math.log10(ATOL)))),
                     )
+                    m = math.copysign(m, c_axis_value)
 
         else:
             p = 2 * math.atan2(a_axis_value * math.sin(alpha / 2), math.cos(alpha / 2))
@@ -94,9 +95,7 @@ class ABADecomposer(Decomposer, ABC):
                 # This fixes float approximations like 1.0000000000002, which acos does not like.
                 acos_argument = max(min(acos_argument, 1.0), -1.0)
                 m = 2 * math.acos(acos_argument)
-                if math.pi - abs(m) > ATOL:
-                    m_sign = 2 * math.atan2(c_axis_value, a_axis_value)
-                    m = math.copysign(m, m_sign)
+                m = math.copysign(m, c_axis_value)
 
         is_sin_m_negative = self.index_a - self.index_b in (-1, 2)
         if is_sin_m_negative:
